@@ -56,12 +56,18 @@ CHECKS["C18"] = {
 CHECKS["C12"] = {
     "text": "Proof (Coq) on the value-level model: a call changes at most its target document (frame theorem over all "
             "21 operations, any outcome), deriving calls only append documents, and any call sequence that does not target d "
-            "leaves d unchanged. The model cannot alias by construction, so the half of the property that is about Python "
-            "object sharing is established by the tie: model vs implementation observations of every document after every "
-            "call (derive, then mutate either side), plus a direct frame/identity oracle on the implementation (partial: "
-            "proof on the model + correspondence).",
+            "leaves d unchanged. Python object sharing is the subject of a second model, a store of objects (Alias.v: managers, "
+            "records, bundles/documents pointing at each other; every call allocates, links and writes as model.py does; content "
+            "reduced to write counters): ownership invariant for every call sequence (C12_objects_owned), hence no object is "
+            "reached from two different documents (C12_no_shared_object), a call leaves every object reached from a document "
+            "other than its target as it was (C12_object_frame, C12_object_independent), deriving calls return documents no "
+            "earlier handle denotes (C12_derived_is_new). Tie: model vs implementation observations of every document after every "
+            "call (derive, then mutate either side); the implementation's object graph by id() against the store model after "
+            "every call (objects per sort, records per container, stray _bundle/parent pointers, objects shared between handles); "
+            "plus a direct frame/identity oracle on the implementation (partial: record.copy() and add_bundle(ProvBundle object) "
+            "are outside the store model; content-dependent counts are read off the implementation).",
     "design_ref": "DESIGN.md §5 C12, §10",
-    "technique": "Coq frame theorem over the API interpreter + differential correspondence and object-identity oracle",
+    "technique": "Coq frame theorem over the API interpreter, ownership invariant over an object-store model + differential correspondence (observations and object graph) and object-identity oracle",
 }
 CHECKS["C09"] = {
     "text": "Proof (Coq): re-creation of a record in a target scope keeps kind and identifier URI under any prefix/default "
